@@ -28,11 +28,15 @@ def obligations(tier):
         fam = [s for s in fam if not s["in_S"] or s["nheads"] <= 2] + [s for i, s in enumerate(x for x in fam if x["in_S"] and x["nheads"] == 3) if i % 3 == 0]
     if tier == "quick":
         fam = [s for s in fam if len(s["outcome"].nodes) <= 5]
+    else:
+        fam = [s for i, s in enumerate(fam) if len(s["outcome"].nodes) <= 8 and (not (s["in_S"] and s["nheads"] == 4) or i % 3 == 0)]
     o += _obls("load_refusal", fam, {"M_LOAD": 1}, lambda b: ("cases.h", sk.c_cases(b, 2048, False)), tier, 16, 3,
                "cbor_load with allocation request k refused (k alone / k and later), every k: NULL + MEMERROR + position just past a head + nothing allocated; the fault-free run succeeds with the expected tree")
     trees = sk.construction_family(tier) + [s for s in tc.family(tier) if s["outcome"].ok and not s["in_S"]][: (20 if tier == "quick" else 200)]
     if tier == "quick":
         trees = [s for s in trees if len(s["outcome"].nodes) <= 5]
+    else:
+        trees = [s for s in trees if len(s["outcome"].nodes) <= 8]
     o += _obls("copy_serialize_alloc_refusal", trees, {"M_TREEOPS": 1}, lambda b: ("trees.h", sk.c_trees(b)), tier, 12, 2,
                "cbor_copy and cbor_serialize_alloc with request k refused, every k: NULL / (0, NULL, size 0), allocations back to the pre-call level, argument tree byte-identical (walker + every reference count)")
     for part in (1, 2, 3, 4):
@@ -51,7 +55,7 @@ META = dict(
     rule="one evaluation = one CBMC query covering a batch of scenarios x every fault index k x both schedules (k alone; k and all later), k enumerated concretely inside the harness until the run that makes <= k requests (the fault-free run); "
          "distinct = distinct (batch, schedule family); non-trivial = at least one refusal actually reached (asserted by the harness: the fault enumeration must reach the fault-free run, and the witness must be reachable)",
     bounds={"quick": "(trees of <= 5 nodes in the quick tier) decoder: accepted skeletons of <= 2 heads, a third of the 3-head ones, variety and special shapes; tree ops: 65 construction programs + 20 special decoder trees; all constructors; growth at sizes 0..4 for all four growable containers; single-fault and fail-stop schedules, complete per scenario",
-            "thorough": "decoder: all accepted skeletons <= 4 heads (all of S(3), every accepted 4-head sequence, every 4th rejected and every 16th still-open 4-head sequence); tree ops on 200 decoder trees"},
+            "thorough": "decoder: accepted skeletons of <= 8 nodes (every 3rd of the 4-head ones); originally planned: all accepted skeletons <= 4 heads (all of S(3), every accepted 4-head sequence, every 4th rejected and every 16th still-open 4-head sequence); tree ops on 200 decoder trees"},
     assumptions=["fault index k concrete (a symbolic k re-creates the pointer-merge blow-up, DESIGN 1.1); N is observed in the run itself, not assumed", "pointer checks ON: a NULL dereference on a failure path is a failed property"],
     outside=["arbitrary multi-fault subsets other than fail-stop"],
     explanation="Exhaustive enumeration of single-fault and fail-stop schedules per scenario with symbolic data; every run is a CBMC execution of the real code with memory checks and leak check.",
